@@ -239,7 +239,9 @@ def _sh_m2(tier):
 
 
 def _sh_m3(tier):
-    return product_pins(finals=[2, 3], i0=[0, 1], c0=[3], f1=[0, 1], i1=[0, 1])
+    # the transitions are sorted: a second transition from state 0 cannot read less than the first one
+    return [p for p in product_pins(finals=[2, 3], i0=[0, 1], c0=[3], f1=[0, 1], i1=[0, 1])
+            if not (p["f1"] == 0 and p["i1"] < p["i0"])]
 
 
 FUNCS = ["CFG.to_pda", "PDAObjectCreator (cfg)", "PDA.to_cfg", "PDA._generate_all_rules",
